@@ -16,13 +16,13 @@ CHECKS = {
     note="Trusted: TLC; exact interning of floats to ranks/ids (fractions.Fraction); EndUnits=32 / UlpFew=4 in spec/Bounds.tla. The model abstracts time to integer ticks and states to step provenance. float16/torch not covered.",
     technique="TLA+ design model checked by TLC + trace validation of the real code against a TLA+ monitor (OdeTrace.tla) + replay of TLC-simulated model behaviours into the real code", design="6/C03"),
  "C04": dict(level="model_checking",
-    text="OdeSystem.tla: FixedStepsEqualDt, FixedDtKeptBetweenSteps, NoOvershootOnCommit for every placement of the span (the deviations absFinalClamp / dirFromSystemSpan / clampAdoptsDt are shown to violate them); traces of all fixed-step families are validated by OdeTrace.tla (C04.* clauses: step is dt or the exact remainder, never longer, clamp only when needed, returned step and next step equal the request, implicit methods shorten only after a failed stage solve); shift and reflection twins are compared by TwinJudge.tla.",
+    text="OdeSystem.tla: FixedStepsEqualDt, FixedDtKeptBetweenSteps, NoOvershootOnCommit for every placement of the span (the deviations absFinalClamp / dirFromSystemSpan / clampAdoptsDt are shown to violate them); traces of all fixed-step families are validated by OdeTrace.tla (C04.* clauses: step is dt or the exact remainder, never longer, clamp only when needed, returned step and next step equal the request, implicit methods shorten only after a failed stage solve); shift and reflection twins are compared by TwinJudge.tla. In the other direction TLC (-simulate, IntegratorSim.tla) produces behaviours of Integrator.tla - calls, the step of every attempt, the controller's verdicts, retries, giving up, injected faults - that are replayed on real integrator objects through the public adaptation_fn hook; attempted steps, the step handed back, the proposed next step, the raised error and the owner of the cached end slope must be the model's.",
     note="Twin runs use dyadic shifts and steps so time arithmetic is exact; state bounds TwinRoundingUnitsPerStep=16 / TwinTolUnits=100 in spec/Bounds.tla.",
-    technique="TLC model checking + trace validation (OdeTrace.tla) + twin-run judge (TwinJudge.tla)", design="6/C04"),
+    technique="TLC model checking + trace validation (OdeTrace.tla) + twin-run judge (TwinJudge.tla) + replay of TLC-simulated Integrator.tla behaviours into real integrator objects", design="6/C04"),
  "C05": dict(level="model_checking",
-    text="OdeSystem.tla with an adaptive environment integrator (shorter returned steps, proposed next steps) is model-checked for overshoot/progress; the attempt protocol of every integrator call in traces of the 9 embedded pairs and Richardson wrappers (both directions, dt0 from 1e-4 to 3x span, tolerances 1e-3..1e-11) is validated by OdeTrace.tla (retry strictly shrinks with the same sign, a rejected or unconverged attempt is never returned, an accepted step is never dropped, unmet tolerances raise with only finite states recorded); accuracy is decided by Accuracy.tla on problems whose rational solutions the specification supplies.",
+    text="OdeSystem.tla with an adaptive environment integrator (shorter returned steps, proposed next steps) is model-checked for overshoot/progress; the attempt protocol of every integrator call in traces of the 9 embedded pairs and Richardson wrappers (both directions, dt0 from 1e-4 to 3x span, tolerances 1e-3..1e-11) is validated by OdeTrace.tla (retry strictly shrinks with the same sign, a rejected or unconverged attempt is never returned, an accepted step is never dropped, unmet tolerances raise with only finite states recorded); accuracy is decided by Accuracy.tla on problems whose rational solutions the specification supplies. In the other direction TLC (-simulate, IntegratorSim.tla) produces behaviours of Integrator.tla - calls, the step of every attempt, the controller's verdicts, retries, giving up, injected faults - that are replayed on real integrator objects through the public adaptation_fn hook; attempted steps, the step handed back, the proposed next step, the raised error and the owner of the cached end slope must be the model's.",
     note="Accuracy on rational-solution problems only (TLC cannot supply exp/sin); ModestK=10 x amplification bound. Random linear systems not covered.",
-    technique="TLC model checking + trace validation (OdeTrace.tla) + spec-supplied exact solutions (Accuracy.tla)", design="6/C05"),
+    technique="TLC model checking + trace validation (OdeTrace.tla) + spec-supplied exact solutions (Accuracy.tla) + replay of TLC-simulated Integrator.tla behaviours into real integrator objects", design="6/C05"),
  "C09": dict(level="model_checking",
     text="OdeSystem.tla: TerminalStop, PiecesAreSteps, SegmentMonotone with roots in interiors, on boundaries and at the start, nested landing call, continuation and faults (deviations keepRolledBackPiece / frontInsert violate PiecesAreSteps); traces with mixes of terminal/non-terminal events, infinite targets, both directions, continuation are validated by OdeTrace.tla incl. the ground truth defined by the scenario (earliest terminal root along the direction). In the other direction TLC (-simulate, OdeSystemSim.tla) produces behaviours of the design model - API script, callback assignments, crash points - that are replayed on the real code with explicit and splitting fixed-step methods; the projected state (rows, step, status, events, dense pieces) must equal the model's prediction at every API return (exactly, times being dyadic).",
     note="Ground truth for time events only; state events on protocol clauses. Continuation does not re-arm the stopping event.",
